@@ -194,3 +194,42 @@ func (p *Prog) tableKernel(pkg, key string) *ssa.Function {
 	}
 	return nil
 }
+
+// isErrSetter: obj is a method that takes exactly one error and returns its receiver's type with the
+// Err field set from that parameter (QFrame.withErr under whatever name).
+var errSetterCache = map[*types.Func]bool{}
+
+func (p *Prog) isErrSetter(obj *types.Func) bool {
+	if obj == nil {
+		return false
+	}
+	if v, ok := errSetterCache[obj]; ok {
+		return v
+	}
+	res := false
+	defer func() { errSetterCache[obj] = res }()
+	sig := obj.Type().(*types.Signature)
+	if sig.Recv() == nil || sig.Params().Len() != 1 || !isErrorType(sig.Params().At(0).Type()) || sig.Results().Len() != 1 {
+		return false
+	}
+	if !isFrameType(sig.Results().At(0).Type()) {
+		return false
+	}
+	fn := p.SSA.FuncValue(obj)
+	if fn == nil || fn.Blocks == nil {
+		return false
+	}
+	errP := fn.Params[1]
+	eachInstr(fn, func(in ssa.Instruction) {
+		st, ok := in.(*ssa.Store)
+		if !ok || st.Val != ssa.Value(errP) {
+			return
+		}
+		if fa, ok := st.Addr.(*ssa.FieldAddr); ok {
+			if s, ok := deref(fa.X.Type()).Underlying().(*types.Struct); ok && s.Field(fa.Field).Name() == "Err" {
+				res = true
+			}
+		}
+	})
+	return res
+}
